@@ -10,6 +10,8 @@ start-up resume selects running, non-idle handlers; (R3) handler_status_from_exi
 evaluated from its AST on the five kinds of exit command, maps them to completed / failed /
 cancelled / not-final, and covers every member of the ExitCommand union; every resume path that
 can meet a terminated log consults the exit command before workflow.run.
+Also (R2) pagination: each durable store's stream_ticks is evaluated from its AST on a model table of 0 … 3·page+2 rows (a small
+model of the one SQL / search shape the stores use, see _paging.py); the yielded sequences must be exactly 1..N in order.
 Not decided: equality of results; store write failures (swallowed with a log line — observation).
 """
 
@@ -21,7 +23,7 @@ from ..absint import Interp, Raised, Record, Unsupported
 from ..astx import call_name, enclosing_stmt, facts_at, kwarg, last
 from ..cfg import CFG, exprs_in_node
 from ..index import AnchorError, enclosing_function, qualname_of
-from ..selftest import Twin
+from ..selftest import Twin, multi
 from ._engine import CL, CL_REL, RUNNER, branch_for, param, union_members
 
 EXPLANATION = __doc__.split("\n\n", 1)[1]
@@ -177,6 +179,16 @@ def run(chk) -> None:
                    reason="an iteration of the read loop can go on to the next row without yielding: stored ticks are dropped from the replay, the resumed run loses accepted work or fails on the orphaned results")
     chk.ob("C13.R2", "stream_workflow_ticks yields every stored tick, validated, in store order", ok, m=repo.module("llama_agents.server._store.abstract_workflow_store"), node=swt, fn=swt, instance="tick-stream:all", reason="stream_workflow_ticks does not yield each stored tick")
 
+    # the durable stores stream a run's ticks page by page: no row may be lost or repeated at a page boundary (decided by evaluating
+    # each store's own stream_ticks on a model table of 0 … 3·page+2 rows, see _paging.py)
+    from ._paging import evaluate_stream_ticks
+    pages = evaluate_stream_ticks(repo)
+    chk.floor("C13.R2", "paginating tick stores evaluated on the model table", len(pages), 3)
+    for r_ in pages:
+        chk.ob("C13.R2", f"{r_['label']} store: stream_ticks yields exactly the stored sequences 1..N in order for every N around the page boundaries (page size {r_['page_size']})",
+               not r_["bad"], m=r_["module"], node=r_["fn"], fn=r_["fn"], instance=f"tick-stream:pages:{r_['label']}", reason=r_["bad"])
+    chk.extra["paging_model_evaluations"] = sum(r_["evaluated"] for r_ in pages)
+
     # ---------------------------------------------------------------- R3 finalize instead of re-run
     _, hs = repo.func(f"{PR}:handler_status_from_exit_command")
     env = {n: n for n in ("CommandCompleteRun", "CommandFailWorkflow", "CommandHalt", "IdleReleasedEvent", "WorkflowCancelledByUser", "WorkflowTimeoutError", "StopEvent")}
@@ -232,6 +244,18 @@ def run(chk) -> None:
 
 
 TWINS = [
+    Twin("sqlite: look-ahead row fetched, never yielded, cursor taken from it", "packages/llama-agents-server/src/llama_agents/server/_store/sqlite/sqlite_workflow_store.py", *multi("packages/llama-agents-server/src/llama_agents/server/_store/sqlite/sqlite_workflow_store.py", [
+        ("params: list[Any] = [run_id, _TICK_PAGE_SIZE]", "params: list[Any] = [run_id, _TICK_PAGE_SIZE + 1]"),
+        ("params = [run_id, seq_cursor, _TICK_PAGE_SIZE]", "params = [run_id, seq_cursor, _TICK_PAGE_SIZE + 1]"),
+        ("            for row in rows:\n", "            for row in rows[:_TICK_PAGE_SIZE]:\n"),
+        ("                seq_cursor = tick.sequence\n            if len(rows) < _TICK_PAGE_SIZE:\n                return\n", "            if len(rows) <= _TICK_PAGE_SIZE:\n                return\n            seq_cursor = rows[-1][1]\n")]), "C13.R2"),
+    Twin("postgres: stream stops at a page that is exactly full", "packages/llama-agents-server/src/llama_agents/server/_store/postgres_workflow_store.py", "            if len(rows) < _TICK_PAGE_SIZE:\n                return\n\n    # ── Helpers", "            if len(rows) <= _TICK_PAGE_SIZE:\n                return\n\n    # ── Helpers", "C13.R2"),
+    Twin("agent-data: next page asked from the cursor inclusive", "packages/llama-agents-server/src/llama_agents/server/_store/agent_data_store.py", 'filters["sequence"] = {"gt": cursor}', 'filters["sequence"] = {"gte": cursor}', "C13.R2"),
+    Twin("benign: sqlite look-ahead row with the cursor taken from the last yielded row", "packages/llama-agents-server/src/llama_agents/server/_store/sqlite/sqlite_workflow_store.py", *multi("packages/llama-agents-server/src/llama_agents/server/_store/sqlite/sqlite_workflow_store.py", [
+        ("params: list[Any] = [run_id, _TICK_PAGE_SIZE]", "params: list[Any] = [run_id, _TICK_PAGE_SIZE + 1]"),
+        ("params = [run_id, seq_cursor, _TICK_PAGE_SIZE]", "params = [run_id, seq_cursor, _TICK_PAGE_SIZE + 1]"),
+        ("            for row in rows:\n", "            for row in rows[:_TICK_PAGE_SIZE]:\n"),
+        ("            if len(rows) < _TICK_PAGE_SIZE:\n                return\n", "            if len(rows) <= _TICK_PAGE_SIZE:\n                return\n")]), None),
     Twin("read side drops a row equal to the previous one", "packages/llama-agents-server/src/llama_agents/server/_store/abstract_workflow_store.py", "    async for stored in store.stream_ticks(run_id):\n        yield WorkflowTickAdapter.validate_python(stored.tick_data)", "    previous = None\n    async for stored in store.stream_ticks(run_id):\n        if stored.tick_data == previous:\n            continue\n        previous = stored.tick_data\n        yield WorkflowTickAdapter.validate_python(stored.tick_data)", "C13.R2"),
     Twin("benign: validated tick bound to a local before the yield", "packages/llama-agents-server/src/llama_agents/server/_store/abstract_workflow_store.py", "    async for stored in store.stream_ticks(run_id):\n        yield WorkflowTickAdapter.validate_python(stored.tick_data)", "    async for stored in store.stream_ticks(run_id):\n        validated = WorkflowTickAdapter.validate_python(stored.tick_data)\n        yield validated", None),
     Twin("persist fire and forget", PR_REL, "            await self._store.append_tick(self.run_id, tick_data)", "            asyncio.ensure_future(self._store.append_tick(self.run_id, tick_data))", "C13.R2"),
